@@ -968,6 +968,16 @@ def st_remove_pbc(tier):
             "wrap": draw(st.sampled_from(["random", "random", "inside"])),
             "model_seed": draw(st.integers(0, 2**31 - 1)),
             "select": draw(st.one_of(st.none(), st.lists(st.booleans(), min_size=len(mols), max_size=len(mols)))),
+            # a selected molecule may be selected in part only: a run of its atoms (raw start, raw length)
+            "partial": draw(
+                st.one_of(
+                    st.lists(
+                        st.one_of(st.none(), st.tuples(st.integers(0, 1000), st.integers(0, 1000)).map(list)),
+                        min_size=len(mols),
+                        max_size=len(mols),
+                    ),
+                )
+            ),
             "consec_limit": limit,
         }
 
@@ -1073,9 +1083,22 @@ def run_remove_pbc(case):
     atoms.chain_id[:] = [chr(ord("A") + mi) for mi in layout]
     sel = None
     selected = [True] * len(case["mols"])
+    chosen = [list(p) for p in positions]  # per molecule: the array positions that are to be sanitized
     if case["select"] is not None:
         selected = list(case["select"])
         sel = np.array([selected[mi] for mi in layout], dtype=bool)
+        for q, part in enumerate(case.get("partial") or []):
+            if part is None or not selected[q]:
+                continue
+            nq = len(positions[q])
+            first = part[0] % nq
+            count = 1 + part[1] % (nq - first)
+            if count < nq:
+                o.label("molecule_selected_in_part")
+            chosen[q] = positions[q][first : first + count]
+            sel[positions[q]] = False
+            sel[chosen[q]] = True
+    in_sel = np.ones(ntot, dtype=bool) if sel is None else sel
     before = atoms.coord.copy()
     with np.errstate(all="ignore"):
         res = struc.remove_pbc(atoms) if sel is None else struc.remove_pbc(atoms, sel)
@@ -1092,10 +1115,12 @@ def run_remove_pbc(case):
         tol = (32 + 8 * ntot) * EPS32 * b.cond * (smag + b.L)
         k, resid = b.lattice(r - w)
         _cmp(o, resid, np.zeros(ntot), tol, "remove_pbc_moves_by_lattice_vectors", f"model {j}")
+        o.check_array_eq(
+            (res.coord[j] if stack else res.coord)[~in_sel], w32[j][~in_sel], "remove_pbc_unselected_untouched", f"atoms outside the selection, model {j}"
+        )
         for q, mol in enumerate(case["mols"]):
-            pos = positions[q]
+            pos = chosen[q]
             if not selected[q]:
-                o.check_array_eq((res.coord[j] if stack else res.coord)[pos], w32[j][pos], "remove_pbc_unselected_untouched", f"molecule {q} model {j}")
                 continue
             if len({tuple(s) for s in shifts[j, pos]}) > 1:
                 segmented = True
@@ -1106,7 +1131,7 @@ def run_remove_pbc(case):
             cen = r[pos].mean(axis=0)
             _cmp(o, b.outside(cen), 0.0, tol, "remove_pbc_centroid_in_box", f"molecule {q} model {j}: centroid {cen} outside the box by")
         for a, c_ in bonds:
-            if not selected[layout[a]]:
+            if not (in_sel[a] and in_sel[c_]):
                 continue
             _, mn = b.min_image(w[c_] - w[a])
             _cmp(o, _norm(r[c_] - r[a]), mn, 2 * tol, "bonded_atoms_at_min_image_distance", f"bond {a}-{c_} model {j}")
